@@ -269,6 +269,42 @@ func longParseInputs(fam string, quickTier bool) []parseExport {
 			out = append(out, x)
 		}
 	}
+	// object ids of every other length than 40 hex digits (Parsers!IsOid): rejected with an error, whatever the length --
+	// 41, 42 and more digits as well as 39 (an id word of 64 digits is what a SHA-256 repository prints)
+	if fam == "commit" || fam == "tag" || fam == "batch" || fam == "ref" {
+		no := false
+		for _, n := range []int{0, 1, 39, 41, 42, 43, 44, 63, 64, 65, 128, 4096} {
+			word := strings.Repeat("a1", n/2) + strings.Repeat("a", n%2)
+			var bs [][]string
+			switch fam {
+			case "commit":
+				bs = append(bs, []string{"tree", "SP", word, "LF", "parent", "SP", hexTok(0xbb)[0], "LF", "LF", "m", "LF"},
+					[]string{"tree", "SP", hexTok(0xaa)[0], "LF", "parent", "SP", word, "LF", "LF", "m", "LF"},
+					[]string{"tree", "SP", hexTok(0xaa)[0], "LF", "parent", "SP", hexTok(0xbb)[0], "LF", "parent", "SP", word, "LF", "author", "SP", "A", "LF", "LF", "m", "LF"})
+			case "tag":
+				bs = append(bs, []string{"object", "SP", word, "LF", "type", "SP", "commit", "LF", "tag", "SP", "v", "LF", "LF", "m", "LF"})
+			case "batch":
+				bs = append(bs, []string{word, "SP", "blob", "SP", "12", "LF"})
+			case "ref":
+				bs = append(bs, []string{word, "SP", "commit", "SP", "123", "SP", "refs/heads/x"})
+			}
+			for _, b := range bs {
+				if n == 0 {
+					// an empty id word: drop the token (two separators in a row)
+					var b2 []string
+					for _, t := range b {
+						if t != "" {
+							b2 = append(b2, t)
+						}
+					}
+					b = b2
+				}
+				x := parseExport{Kind: fam, Bytes: b}
+				x.Expect.OK = &no
+				out = append(out, x)
+			}
+		}
+	}
 	for _, n := range sizes {
 		long := strings.Repeat("n", n)
 		switch fam {
